@@ -24,9 +24,9 @@ MANIFEST = dict(
          "cap (standard_stops_first, ins_stops_first, reached_any_all, *_terminates); finalise runs iff the condition is met and "
          "increments/appends every remaining live point exactly once with live counts n..1 (finalise_iff, finalise_consumes_once, "
          "ins_finalise_consumes_once); a finalised sampler re-entered returns the identical state with zero iterations "
-         "(rerun_idempotent, ins_rerun_idempotent, final_checkpoint_holds_flag; the short-circuit returns the same expressions as the "
-         "normal exit: rerun_returns_same_expressions) with the counter-example that a run stopped only by the "
-         "cap is not (rerun_idempotent_fails_without); alias resolution is total and unambiguous, unknown names are rejected "
+         "(finalised_entry_returns_stored, rerun_idempotent, ins_rerun_idempotent, final_checkpoint_holds_flag; the short-circuit returns the same expressions as the "
+         "normal exit: rerun_returns_same_expressions) with the complementary theorem that a run stopped only by the "
+         "cap is not finalised and iterates once more on re-entry (rerun_after_cap_iterates, rerun_idempotent_fails_without); alias resolution is total and unambiguous, unknown names are rejected "
          "(alias_resolution_total, unknown_rejected, configure_errors + the silent-drop counter-example) and the resolved list is the "
          "user's list in the user's order, so the k-th tolerance belongs to the k-th named criterion (resolved_in_user_order, from "
          "the translated loop nesting); ESS equals Kish's formula, "
